@@ -180,8 +180,11 @@ func substCI(ci *callInfo, f func(*Term) *Term) *callInfo {
 
 // resolveDyn: a dynamic call whose function value became a known literal after substitution.
 func (p *Prog) resolveDyn(ci *callInfo) {
-	if ci != nil && ci.name == "dyn" && ci.fn == nil && ci.fun != nil && ci.fun.Is("func") && len(ci.fun.A) == 1 {
+	if ci != nil && ci.name == "dyn" && ci.fn == nil && ci.fun != nil && ci.fun.Is("func") && len(ci.fun.A) >= 1 {
 		ci.fn = p.FuncNamed(ci.fun.A[0].At)
+		if len(ci.fun.A) == 2 {
+			ci.recv = ci.fun.A[1]
+		}
 	}
 }
 
